@@ -96,6 +96,11 @@ def make_file(rng, path):
     nsupp = rng.randint(1, 5)
     nvars = nsupp + rng.choice((0, 0, 1, 3))
     allnames = [f'v{i}' for i in range(nvars)]
+    if rng.random() < 0.4:
+        # every character that the format's names may contain
+        pool = ["x'", "y'", 'a.b', 'c@1', '_u', "p_1'", 'V0', 'w.2@',
+                "z''", 'x']
+        allnames = rng.sample(pool, nvars)
     rng.shuffle(allnames)                  # allnames[level] = name
     levels = sorted(rng.sample(range(nvars), nsupp))
     supp_by_level = [allnames[l] for l in levels]
